@@ -17,10 +17,12 @@ RULE = ("Engine S (a quarter of the cases): generated store histories on the two
         "timestamp_creation in [generation instant, first push instant]; at every put/get the item's stamps are "
         "consistent and non-decreasing (creation <= node exit == put instant; node entry == get instant). Non-trivial: "
         "some edge's occupancy changed >= 4 times, T is not a change instant and >= 1 item was received.")
+RULE += (" Two in ten flow-shaped factories also contain rework loops (a machine feeding itself or a machine of an earlier layer through a "
+         "Buffer / Fleet edge with a strictly positive delay / transit time, so no zero-time cycle exists); machine oracles work per visit, not per item.")
 ASSUMPTIONS = ["creation time is the item's own stamp, bracketed by generation and first push (the library stamps at the first push)",
                "tolerance 1e-9*max(1,T) on averages and sums"]
 
-PROFILE = {"conveyors": True, "conveyor_to_sink": True, "pack": 2, "finite": 3}
+PROFILE = {"cycles": 2, "conveyors": True, "conveyor_to_sink": True, "pack": 2, "finite": 3}
 TOL = 1e-9
 AVG_KEY = {"Buffer": "time_averaged_num_of_items_in_buffer", "Fleet": "time_averaged_num_of_items_in_fleet",
            "ContinuousConveyor": "time_averaged_num_of_items_in_conveyor", "SlottedConveyor": "time_averaged_num_of_items_in_conveyor"}
@@ -29,7 +31,7 @@ FINAL = {"Buffer": "update_final_buffer_avg_content", "Fleet": "update_final_fle
 
 
 def examples(tier):
-    return 4000 if tier == "quick" else 80000
+    return 8000 if tier == "quick" else 240000
 
 
 S_CLASSES = ["ReservablePriorityReqStore", "ReservableReqStore", "BufferStore", "FleetStore", "Buffer", "Fleet"]
